@@ -1,6 +1,7 @@
 """C14 runner — executes ONE history of public QuCumber operations in a fresh interpreter.
 
-stdin : {"ops": [<op>, ...], "workdir": "<dir for saved files>"}
+stdin : {"ops": [<op>, ...], "workdir": "<dir for saved files>", "env": <name of a process-global environment of harness/common.py ENVS, or null>}
+        (the whole history — constructions included — is executed INSIDE that environment: default dtype float64 / no_grad / another cwd)
 stdout: one JSON line {"records": [<per-op record>, ...], "final_params": [...]}
 
 Per operation it records (nothing here uses numpy's or Python's global generators, except the
@@ -33,6 +34,7 @@ from qucumber.utils import training_statistics as ts  # noqa: E402
 from qucumber.utils import unitaries  # noqa: E402
 
 torch.set_num_threads(1)
+START_CWD = os.getcwd()
 
 # ------------------------------------------------------------------ recorders (pass-through)
 CALLS = []
@@ -54,6 +56,26 @@ def _wrap_numel(name):
 for _n in ("bernoulli", "randn", "randperm", "randint", "rand", "normal", "multinomial", "rand_like", "randn_like",
            "randint_like", "poisson"):
     _wrap_numel(_n)
+
+
+def _wrap_tensor_method(name, inplace):
+    """the same generator reached through a Tensor method (`p.bernoulli()`, `x.bernoulli_(0.5)`, `x.normal_()`, `x.random_(2)` …): a
+    stream-identical rewrite of `torch.bernoulli(p)` must record the same number of elements (the C++ kernels of the module-level
+    functions do not pass through these Python attributes, so nothing is counted twice)"""
+    orig = getattr(torch.Tensor, name)
+
+    def w(self, *a, **k):
+        r = orig(self, *a, **k)
+        CALLS.append(["Tensor." + name, int((self if inplace else r).numel())])
+        return r
+
+    w.__wrapped__ = orig
+    setattr(torch.Tensor, name, w)
+
+
+for _n, _ip in (("bernoulli", False), ("multinomial", False), ("bernoulli_", True), ("normal_", True), ("random_", True), ("uniform_", True),
+                ("exponential_", True), ("geometric_", True), ("cauchy_", True), ("log_normal_", True)):
+    _wrap_tensor_method(_n, _ip)
 
 
 def _wrap_seed(mod, name, label):
@@ -556,9 +578,16 @@ def source_fingerprint():
 
 
 def main():
-    src_start = source_fingerprint()
     req = json.loads(sys.stdin.read())
-    workdir = req["workdir"]
+    from harness import common
+
+    with common.environment(req.get("env")):
+        _main(req)
+
+
+def _main(req):
+    src_start = source_fingerprint()
+    workdir = os.path.abspath(req["workdir"])
     os.makedirs(workdir, exist_ok=True)
     states = []
     records = []
@@ -594,6 +623,7 @@ def main():
         rec["seeds"] = [list(s) for s in SEEDS]
         records.append(rec)
     sys.stdout.write("C14RESULT " + json.dumps({"records": records, "final_params": [param_hash(s) for s in states],
+                                                "env": [req.get("env"), str(torch.get_default_dtype()), bool(torch.is_grad_enabled()), os.getcwd() != START_CWD],
                                                 "repo": qc.REPO, "module": os.path.dirname(qucumber.__file__), "api": public_api(),
                                                 "src": [src_start, source_fingerprint()]}) + "\n")
 
